@@ -736,6 +736,7 @@ ALLOWED_WHAT = {
     "misattached-expression": {"scope-parent", "scope-duplicate", "name-missing", "name-extra", "lookup"},
     "comprehension-extent": {"scope-end"},
     "module-level-global-unbound": {"lookup"},
+    "cyclic-superclasses-order-dependence": {"order-dependence"},
 }
 
 
@@ -1105,6 +1106,36 @@ def _jsonable(v):
     return list(v) if isinstance(v, tuple) else v
 
 
+def cyclic_classes(tree):
+    """keys of the class statements that lie on a cycle of the relation "names, as a base, a class statement of the
+    module with that name" (by spelling: rope resolves the bases lazily and guards the recursion, caching what it has)"""
+    classes = [n for n in ast.walk(tree) if isinstance(n, ast.ClassDef)]
+    by_name = {}
+    for c in classes:
+        by_name.setdefault(c.name, []).append(c)
+    edges = {id(c): [d for b in c.bases if isinstance(b, ast.Name) for d in by_name.get(b.id, [])] for c in classes}
+    out = set()
+    for c in classes:
+        seen, todo = set(), list(edges[id(c)])
+        while todo:
+            d = todo.pop()
+            if d is c:
+                out.add(node_key(c))
+                break
+            if id(d) not in seen:
+                seen.add(id(d))
+                todo.extend(edges[id(d)])
+    # classes that inherit from a class on a cycle see the same unstable table
+    changed = True
+    while changed:
+        changed = False
+        for c in classes:
+            if node_key(c) not in out and any(node_key(d) in out for d in edges[id(c)]):
+                out.add(node_key(c))
+                changed = True
+    return out
+
+
 def c08_shapes(tree):
     """shapes on which rope's patchedast (property C08) is known not to annotate every node: open findings of C08,
     referred to by id"""
@@ -1220,7 +1251,22 @@ def observe(src, all_orders=False):
         diff = sorted((q for q in base if other.get(q) != base[q]), key=repr)
         if diff:
             q = diff[0]
-            o.dis.append(dict(what="order-dependence", cause="unattributed", order=mode, question=list(map(_jsonable, q)),
+            cyc = cyclic_classes(tree)
+            by_path = {r.path: r for r in o.rope_scopes}
+
+            def inherited_only(q):
+                """the differing answer concerns only inherited attributes of a class with cyclic superclasses"""
+                r = by_path.get(tuple(q[1]))
+                while r is not None and r.kind == "Comp":
+                    r = r.parent
+                if r is None or r.kind != "Class" or r.key not in cyc:
+                    return False
+                if q[0] == "names":
+                    return not (set(base[q]) ^ set(other.get(q) or ())) & set(r.names)
+                return q[0] == "lookup" and q[2] not in r.names
+
+            cause = "cyclic-superclasses-order-dependence" if all(inherited_only(x) for x in diff) else "unattributed"
+            o.dis.append(dict(what="order-dependence", cause=cause, order=mode, question=list(map(_jsonable, q)),
                               answer_in_preorder=_jsonable(base[q]), answer_in_this_order=_jsonable(other.get(q)),
                               differing_answers=len(diff)))
     check_offsets(o, tree)
@@ -1661,7 +1707,7 @@ Import ListNotations.
 ''']
     # the inference crash has no counterpart in the model (type inference is outside it): no witness
     items = [(f["signature"].replace("-", "_"), f["title"], json.load(open(os.path.join(VERIF, f["replay"])))["src"])
-             for f in fd["open"] if f["signature"] != "superclass-inference-crash"]
+             for f in fd["open"] if f["signature"] not in ("superclass-inference-crash", "cyclic-superclasses-order-dependence")]
     items.append(("example", "a module inside the domain of the theorems (non-vacuity examples)", EXAMPLE_SOURCE))
     items.append(("oneliners", "one-line definitions whose body statement continues over several physical lines "
                   "(non-vacuity of the layout hypothesis)", EXAMPLE_ONELINERS))
